@@ -1,14 +1,134 @@
 (* C13Theorems.v — the property theorems of C13 and nothing else.  Each is closed by
-   `exact <lemma>` and followed by Print Assumptions (audited by ./check on every run). *)
+   `exact <lemma>` and followed by Print Assumptions (audited by ./check on every run).
+   Model: C13Model.v (hand transcription of bits/ebspwriter.go, ebspreader.go, writer.go,
+   reader.go); spec: C13Spec.v (escape / unescape / forbidden), C13Bits.v (bit lists). *)
 From V.lib Require Import Base.
-From V.c13 Require Import C13Spec C13Model C13EscProofs.
+From V.c13 Require Import C13Spec C13Model C13Bits C13EscProofs C13MarkProofs
+  C13WriterProofs C13ReaderProofs C13RoundTrip.
 
-(* the emulation-removing rule inverts the emulation-preventing rule, for every byte string *)
+(* ---- emulation prevention, byte level, every byte string ---- *)
 Theorem C13_unescape_escape : forall l : list N, unescape (escape l) = l.
 Proof. exact unescape_escape. Qed.
 Print Assumptions C13_unescape_escape.
 
-(* the escaped stream never contains 00 00 00, 00 00 01 or 00 00 02 *)
 Theorem C13_no_forbidden : forall l : list N, forbidden (escape l) = false.
 Proof. exact no_forbidden. Qed.
 Print Assumptions C13_no_forbidden.
+
+(* every 00 00 03 in the escaped stream ends at an inserted byte *)
+Theorem C13_every_003_is_escape : forall l, all_003_inserted (escape_marked l) = true.
+Proof. exact all_003_escape. Qed.
+Print Assumptions C13_every_003_is_escape.
+
+(* every inserted byte is required: it follows two zero bytes and precedes a byte <= 3, so
+   deleting it would leave a forbidden-or-ambiguous 00 00 0x *)
+Theorem C13_minimal : forall l, inserted_needed false false (escape_marked l) = true.
+Proof. exact inserted_needed_escape. Qed.
+Print Assumptions C13_minimal.
+
+Theorem C13_marked_is_escape : forall l, map fst (escape_marked l) = escape l.
+Proof. exact (escape_marked_fst 0). Qed.
+Print Assumptions C13_marked_is_escape.
+
+(* ---- the word-level EBSP writer (64-bit accumulator, drain loop, zero-run counter) ---- *)
+(* one Write call appends exactly the n low bits of `bits` to the logical stream, whatever
+   the split of the stream into calls; bytes already written are the escaping of `raw` *)
+Theorem C13_write_appends_bits : forall esc s raw bits n,
+  WInv esc s raw -> n <= 56 ->
+  exists raw',
+    WInv esc (write_gen esc s bits n) raw' /\
+    bytes_to_bits raw' ++ pending (write_gen esc s bits n)
+    = bytes_to_bits raw ++ pending s ++ bits_of (N.to_nat n) bits /\
+    exists added, raw' = raw ++ added /\ Forall (fun b => b < 256) added.
+Proof. exact write_gen_spec. Qed.
+Print Assumptions C13_write_appends_bits.
+
+(* any op sequence (fixed width <= 56, flag, ue/se < 2^32, SEI value, trailing bits, stuffing):
+   output = standard escaping of the whole bytes of the concatenated bit codes *)
+Theorem C13_writer_is_escape : forall ops,
+  forallb op_ok ops = true ->
+  exists raw, wout (run_writer ops) = escape raw /\
+              bytes_to_bits raw ++ pending (run_writer ops) = all_bits ops /\
+              (length (pending (run_writer ops)) < 8)%nat /\
+              Forall (fun b => b < 256) raw.
+Proof. exact writer_is_escape. Qed.
+Print Assumptions C13_writer_is_escape.
+
+(* the Exp-Golomb prefix loop computes floor(log2(nr+1)) and the suffix *)
+Theorem C13_ue_loop : forall nr, nr + 1 < 2 ^ 64 ->
+  exists q, ue_loop 64 nr 0 0 0 = (q, nr + 1 - 2 ^ q) /\ 2 ^ q <= nr + 1 < 2 ^ (q + 1).
+Proof. exact ue_loop_top. Qed.
+Print Assumptions C13_ue_loop.
+
+(* ---- the word-level EBSP reader ---- *)
+(* Read n returns the next n bits of the UNESCAPED stream and advances by n *)
+Theorem C13_read_bits : forall s n,
+  RInv s -> rn s < 8 -> n <= 56 -> n <= N.of_nat (length (rbits s)) ->
+  let '(v, s') := read s n in
+  v = val_of (firstn (N.to_nat n) (rbits s)) /\
+  rbits s' = skipn (N.to_nat n) (rbits s) /\
+  RInv s' /\ rn s' < 8 /\ rdata s' = rdata s.
+Proof. exact read_spec. Qed.
+Print Assumptions C13_read_bits.
+
+Theorem C13_read_past_end : forall s n,
+  RInv s -> rn s < 8 -> n <= 56 -> N.of_nat (length (rbits s)) < n ->
+  fst (read s n) = 0 /\ rerr (snd (read s n)) = true.
+Proof. exact read_fail. Qed.
+Print Assumptions C13_read_past_end.
+
+(* ReadBytes over an escaped stream returns the bytes that were escaped *)
+Theorem C13_reader_bytes : forall l, Forall (fun b => b < 256) l ->
+  exists s', read_bytes (length l) (rinit (escape l)) = (l, s') /\ rerr s' = false /\ rbits s' = [].
+Proof. exact reader_bytes. Qed.
+Print Assumptions C13_reader_bytes.
+
+Theorem C13_read_ue : forall s v rest,
+  RGood s -> v < 2 ^ 32 -> rbits s = ue_code' v ++ rest ->
+  exists s', read_ue s = (v, s') /\ rbits s' = rest /\ RGood s' /\ rdata s' = rdata s.
+Proof. exact read_ue_spec. Qed.
+Print Assumptions C13_read_ue.
+
+Theorem C13_se_mapping : forall s k rest,
+  RGood s -> se_to_ue k < 2 ^ 32 -> rbits s = ue_code' (se_to_ue k) ++ rest ->
+  exists s', read_se s = (k, s') /\ rbits s' = rest /\ RGood s' /\ rdata s' = rdata s.
+Proof. exact read_se_spec. Qed.
+Print Assumptions C13_se_mapping.
+
+(* MoreRbspData = "the unread bits are not 1 0*", reader state restored exactly *)
+Theorem C13_more_rbsp : forall s,
+  RGood s ->
+  match rbits s with
+  | [] => fst (more_rbsp_data s) = None /\ rerr (snd (more_rbsp_data s)) = true
+  | b :: t => more_rbsp_data s = (Some (negb b || existsb (fun x => x) t), s)
+  end.
+Proof. exact more_rbsp_data_spec. Qed.
+Print Assumptions C13_more_rbsp.
+
+(* counters report positions in the escaped stream: rpos bytes of the input consumed *)
+Theorem C13_counters : forall s, rn s < 8 ->
+  nr_bytes_read s = rpos s /\ nr_bits_read s = (8 * Z.of_N (rpos s) - Z.of_N (rn s))%Z.
+Proof. exact counters_spec. Qed.
+Print Assumptions C13_counters.
+
+(* ---- the round trip: any sequence of fixed-width (1..32, value fits), flag, ue (< 2^32) and
+   se values written with the EBSP writer (+ rbsp trailing bits) is read back identically ---- *)
+Theorem C13_reader_inverse : forall ops,
+  forallb value_op ops = true ->
+  let data := wout (run_writer (ops ++ [WTrail])) in
+  exists s', run_reader (map rop_of ops) (rinit data) = (map rval_of ops, s') /\ rerr s' = false.
+Proof. exact reader_inverse. Qed.
+Print Assumptions C13_reader_inverse.
+
+(* ---- non-vacuity: concrete non-trivial instances ---- *)
+Example ex_ops : list wop := [WBits 0 16; WBits 3 8; WUe 4294967294; WSe (-7)%Z; WFlag true; WBits 0 24; WBits 1 7].
+Example ex_ops_ok : forallb value_op ex_ops = true.
+Proof. vm_compute. reflexivity. Qed.
+Example ex_ops_escapes : wout (run_writer (ex_ops ++ [WTrail])) =
+  [0;0;3;3;0;0;3;0;1;255;255;255;254;62;0;0;3;0;6].
+Proof. vm_compute. reflexivity. Qed.
+Example ex_read_back :
+  fst (run_reader (map rop_of ex_ops) (rinit (wout (run_writer (ex_ops ++ [WTrail]))))) = map rval_of ex_ops.
+Proof. vm_compute. reflexivity. Qed.
+Example ex_escape : escape [0;0;0;0;1;0;0;3;255] = [0;0;3;0;0;3;1;0;0;3;3;255].
+Proof. vm_compute. reflexivity. Qed.
